@@ -44,12 +44,29 @@ func c10System(c *sim.Case) {
 		// half of the deployments are the built service binary (cmd/main.go) driven over gRPC, the others the same
 		// wiring assembled in process
 		binary := sim.ServiceBinary() != "" && sim.Bool(c, "binary")
-		w := sim.NewWorld(c, sim.WorldOpts{Store: st, ViaServer: true, RealFactory: true, Binary: binary, Abs: abs, Idle: idle, CookiePrefix: fmt.Sprintf("w%d", wi)})
+		// a third of the deployments have another OIDC filter configured BEFORE this one, on the other kind of store
+		// (so that the two share nothing) and with limits of its own: none, or an hour
+		o := sim.WorldOpts{Store: st, ViaServer: true, RealFactory: true, Binary: binary, Abs: abs, Idle: idle, CookiePrefix: fmt.Sprintf("w%d", wi)}
+		if sim.Weighted(c, "neighbour", 2, 1) == 1 {
+			o.Neighbour = map[string]string{"memory": "redis", "redis": "memory"}[st]
+			if sim.Bool(c, "neighbour.hour") {
+				o.NeighbourAbs, o.NeighbourIdle = time.Hour, time.Hour
+			}
+			c.Class("deployment:with-neighbour-filter")
+		}
+		w := sim.NewWorld(c, o)
+		if sim.Weighted(c, "short-lived-tokens", 2, 1) == 1 {
+			// tokens that expire every second, renewed with a rotating refresh token: activity of the most intrusive kind,
+			// which must still extend nothing but the idle limit
+			w.IdP.IDTTL = time.Second
+			w.IdP.Default = &sim.Behaviour{Name: "rotating", Rotate: true, ExpiresIn: 1}
+			c.Class("deployment:tokens-refreshed-every-second")
+		}
 		worlds = append(worlds, w)
 		if binary {
 			c.Class("deployment:service-binary")
 		}
-		c.Logf("deployment %d: store=%s abs=%v idle=%v binary=%v", wi, st, abs, idle, binary)
+		c.Logf("deployment %d: store=%s abs=%v idle=%v binary=%v neighbour=%q (abs=idle=%v)", wi, st, abs, idle, binary, o.Neighbour, o.NeighbourAbs)
 		for si := 0; si < nSess; si++ {
 			s := &c10Sess{w: w, b: w.NewBrowser(fmt.Sprintf("w%ds%d", wi, si)), abs: abs, idle: idle}
 			for k := 0; k < slots; k++ {
